@@ -83,17 +83,34 @@ func c15Forward(c *Ctx) {
 	}
 	portOfConn := func(v ssa.Value) (string, bool) {
 		call, ok := v.(*ssa.Call)
-		if !ok || !CalleeIs(call, "fmt", "Sprintf") {
+		if !ok {
 			return "", false
 		}
-		if f, _ := ConstString(call.Call.Args[0]); f != "%d" {
+		var portV ssa.Value
+		switch {
+		case CalleeIs(call, "fmt", "Sprintf"):
+			if f, _ := ConstString(call.Call.Args[0]); f != "%d" {
+				return "", false
+			}
+			va := variadicArgs(call.Call.Args[1])
+			if len(va) != 1 {
+				return "", false
+			}
+			portV = Unwrap(va[0])
+		case CalleeIs(call, "strconv", "Itoa"):
+			portV = call.Call.Args[0]
+		case CalleeIs(call, "strconv", "FormatInt"), CalleeIs(call, "strconv", "FormatUint"):
+			if base, isK := ConstInt(call.Call.Args[1]); !isK || base != 10 {
+				return "", false
+			}
+			portV = call.Call.Args[0]
+			if cv, isCv := portV.(*ssa.Convert); isCv {
+				portV = cv.X
+			}
+		default:
 			return "", false
 		}
-		va := variadicArgs(call.Call.Args[1])
-		if len(va) != 1 {
-			return "", false
-		}
-		x, ok := isFieldLoadNamed(Unwrap(va[0]), "Port")
+		x, ok := isFieldLoadNamed(portV, "Port")
 		if !ok {
 			return "", false
 		}
